@@ -34,8 +34,13 @@ def _gen_file(rng, formats, tier, max_frames=None):
     n_atoms = rng.choice(ATOMS)
     if fmt in ('pdb', 'gro') and n_atoms < 3:
         n_atoms = 3
-    if fmt == 'mdcrd' and n_atoms < 2:
-        n_atoms = 2      # one atom = 3 numbers per line = indistinguishable from a box line (format ambiguity)
+    mdcrd_has_box_kw = False
+    if fmt == 'mdcrd':
+        # has_box is a documented constructor keyword for exactly the ambiguous case (one atom = 3 numbers per line = looks like
+        # a box line): with it a one-atom file is legal input for a raw handle
+        mdcrd_has_box_kw = rng.chance(0.3)
+        if n_atoms < 2 and not mdcrd_has_box_kw:
+            n_atoms = 2
     want = rng.choice([None, 'ortho', 'tric'])
     cell = fmts.cell_for(fmt, want)
     knobs = {}
@@ -46,9 +51,12 @@ def _gen_file(rng, formats, tier, max_frames=None):
         knobs['compression'] = rng.choice(['zlib', None])
     if fmt == 'nc' and rng.chance(0.4):
         knobs['backend'] = 'scipy'          # the scipy.io.netcdf fallback, selected the way the test-suite does (hide netCDF4)
+    if mdcrd_has_box_kw:
+        knobs['has_box_kw'] = True
     if fmt == 'lammpstrj':
         # legal `dump custom` column layouts other than the one mdtraj writes (the reader detects the columns per file)
         knobs['layout'] = rng.choice(['std', 'std', 'mol_first', 'reordered'])
+        knobs['line_order'] = rng.choice(['sorted', 'sorted', 'shuffled'])      # LAMMPS does not sort atom lines by id unless asked
     # extension aliases registered for the same reader, gz variants, and where the molecule sits (negative and large coordinates)
     alias = {'nc': ['.nc', '.nc', '.netcdf', '.ncdf'], 'mdcrd': ['.mdcrd', '.crd'], 'h5': ['.h5', '.h5', '.hdf5'],
              'xyz': ['.xyz', '.xyz', '.xyz.gz'], 'pdb': ['.pdb', '.pdb.gz']}
@@ -65,12 +73,17 @@ def _gen_subsets(rng):
     out = []
     for _ in range(2):
         out.append({'kind': 'frac', 'seed': rng.below(1 << 30), 'p': rng.choice([0.2, 0.5, 0.8])})
+    # third entry: a slice object (only handed to raw file handles, several of which have explicit slice handling)
+    out.append({'kind': 'slice', 'start': rng.choice([0, 0, 1]), 'step': rng.choice([1, 2, 3])})
     return out
 
 
 def resolve_subset(sub, n_atoms):
     if sub is None:
         return None
+    if sub.get('kind') == 'slice':
+        idx = np.arange(n_atoms)[sub['start']::sub['step']]
+        return idx if len(idx) else np.array([0])
     r = np.random.RandomState(sub['seed'])
     mask = r.uniform(size=n_atoms) < sub['p']
     idx = np.nonzero(mask)[0]
@@ -86,10 +99,10 @@ def _gen_handle_op(rng, n_handles, nsub):
     o = {'op': op, 'c': c}
     if op == 'read':
         o['n'] = rng.weighted([(1, 4), (2, 3), (3, 2), (rng.randint(4, 12), 3), (rng.randint(13, 80), 1)])
-        if rng.chance(0.25):
+        if rng.chance(0.3):
             o['ai'] = rng.below(nsub)
     elif op == 'readall':
-        if rng.chance(0.25):
+        if rng.chance(0.3):
             o['ai'] = rng.below(nsub)
     elif op in ('seek', 'rseek'):
         o['k'] = rng.below(1 << 16)
@@ -123,6 +136,10 @@ def generate(check, rng, tier, run_index):
     # ---- C02
     nfiles = rng.weighted([(1, 5), (2, 3), (3, 2)])
     files = [_gen_file(rng, C02_FORMATS, tier, max_frames=30) for _ in range(nfiles)]
+    for f in files:
+        if f['fmt'] == 'mdcrd':
+            f['knobs'].pop('has_box_kw', None)          # md.load / md.iterload have no has_box argument
+            f['n_atoms'] = max(2, f['n_atoms'])
     for f in files[1:]:
         # list loads need one format and one atom count
         f['fmt'] = files[0]['fmt']
@@ -131,6 +148,7 @@ def generate(check, rng, tier, run_index):
         f['knobs'] = dict(files[0]['knobs'])
         if f['fmt'] == 'lammpstrj':
             f['knobs']['layout'] = rng.choice(['std', 'mol_first', 'reordered'])     # files of one format may differ in column layout
+            f['knobs']['line_order'] = rng.choice(['sorted', 'shuffled'])
     subsets = _gen_subsets(rng)
     handles = [{'file': rng.below(nfiles)} for _ in range(2)]
     ops = []
@@ -152,7 +170,7 @@ def generate(check, rng, tier, run_index):
             o = {'op': 'iter_new', 'g': ngen, 'f': f, 'chunk': chunk, 'stride': stride, 'skip': skip,
                  'top': rng.choice(['obj', 'path', 'shared'])}
             if rng.chance(0.35):
-                o['ai'] = rng.below(len(subsets))
+                o['ai'] = rng.below(2)
             live.append(ngen)
             ngen += 1
         elif k in ('iter_next', 'iter_drain'):
@@ -163,25 +181,25 @@ def generate(check, rng, tier, run_index):
             o = {'op': 'load', 'f': rng.below(nfiles), 'stride': rng.weighted([(None, 2), (1, 1), (2, 3), (3, 2), (5, 1), (50, 1)]),
                  'top': rng.choice(['obj', 'path', 'shared'])}
             if rng.chance(0.4):
-                o['ai'] = rng.below(len(subsets))
+                o['ai'] = rng.below(2)
         elif k == 'load_frame':
             o = {'op': rng.choice(['load_frame', 'load_kwframe']), 'f': rng.below(nfiles), 'i': rng.below(1 << 16),
                  'top': rng.choice(['obj', 'path', 'shared'])}
             if rng.chance(0.4):
-                o['ai'] = rng.below(len(subsets))
+                o['ai'] = rng.below(2)
         elif k == 'load_list':
             kf = rng.randint(1, 3)
             o = {'op': 'load_list', 'fs': [rng.below(nfiles) for _ in range(kf)],
                  'stride': rng.weighted([(None, 3), (2, 2), (3, 1)]), 'top': rng.choice(['obj', 'path', 'shared'])}
             if rng.chance(0.5):
-                o['ai'] = rng.below(len(subsets))
+                o['ai'] = rng.below(2)
         elif k == 'load_list_bad':
             # fault: a later file of the list exists but is unreadable (truncated copy / unrelated bytes): the load is
             # expected to fail half way; what it leaves behind must not change what later loads return
             o = {'op': 'load_list_bad', 'fs': [rng.below(nfiles)], 'bad': rng.choice(['truncated', 'junk', 'empty']),
                  'stride': rng.weighted([(None, 3), (2, 1)]), 'top': rng.choice(['obj', 'shared', 'shared'])}
             if rng.chance(0.7):
-                o['ai'] = rng.below(len(subsets))
+                o['ai'] = rng.below(2)
         else:
             o = _gen_handle_op(rng, len(handles), len(subsets))
             o['raw'] = True
@@ -226,8 +244,8 @@ class World(object):
                     f.topology = t.topology
             else:
                 t.save(path, **kw)
-            if fs['fmt'] == 'lammpstrj' and fs['knobs'].get('layout', 'std') != 'std':
-                _relayout_lammpstrj(path, fs['knobs']['layout'])
+            if fs['fmt'] == 'lammpstrj' and (fs['knobs'].get('layout', 'std') != 'std' or fs['knobs'].get('line_order') == 'shuffled'):
+                _relayout_lammpstrj(path, fs['knobs'].get('layout', 'std'), fs['knobs'].get('line_order') == 'shuffled', fs['seed'])
             x, tm, L, A = fmts.tagged_arrays(fs['n_frames'], fs['n_atoms'], fs['cell'], fs['seed'], origin)
             top_path = os.path.join(workdir, 'top%d.pdb' % k)
             self.files.append({'spec': fs, 'path': path, 'traj': t, 'xyz': x, 'time': tm, 'L': L, 'A': A, 'ox': origin[0],
@@ -247,22 +265,39 @@ class World(object):
         return f['traj'].topology.copy()
 
 
-def _relayout_lammpstrj(path, layout):
-    """rewrite the ATOMS sections of a file written by mdtraj ('id type xu yu zu') in another legal column layout"""
+def _relayout_lammpstrj(path, layout, shuffle=False, seed=0):
+    """rewrite the ATOMS sections of a file written by mdtraj ('id type xu yu zu') in another legal column layout and / or
+    with the atom lines of every frame in another order (LAMMPS writes them unsorted unless `dump_modify sort id` is used)"""
     out = []
+    block = []
     in_atoms = False
+    r = np.random.RandomState(seed & 0x7FFFFFFF)
+
+    def flush_block():
+        if shuffle and len(block) > 1:
+            perm = r.permutation(len(block))
+            out.extend(block[k] for k in perm)
+        else:
+            out.extend(block)
+        del block[:]
+
     with open(path) as fh:
         for line in fh:
             if line.startswith('ITEM:'):
+                flush_block()
                 in_atoms = line.startswith('ITEM: ATOMS')
-                if in_atoms:
+                if in_atoms and layout != 'std':
                     line = 'ITEM: ATOMS mol id type xu yu zu\n' if layout == 'mol_first' else 'ITEM: ATOMS type zu id q xu yu\n'
                 out.append(line)
                 continue
             if in_atoms and line.strip():
-                i, ty, x, y, z = line.split()
-                line = ('1 %s %s %s %s %s\n' % (i, ty, x, y, z)) if layout == 'mol_first' else ('%s %s %s 0.5 %s %s\n' % (ty, z, i, x, y))
-            out.append(line)
+                if layout != 'std':
+                    i, ty, x, y, z = line.split()
+                    line = ('1 %s %s %s %s %s\n' % (i, ty, x, y, z)) if layout == 'mol_first' else ('%s %s %s 0.5 %s %s\n' % (ty, z, i, x, y))
+                block.append(line)
+            else:
+                out.append(line)
+    flush_block()
     with open(path, 'w') as fh:
         fh.writelines(out)
 
@@ -271,6 +306,8 @@ def _open(world, k):
     f = world.files[k]
     fs = f['spec']
     kw = dict(fmts.open_kwargs(fs['fmt'], fs['n_atoms']))
+    if fs['fmt'] == 'mdcrd' and fs['knobs'].get('has_box_kw'):
+        kw['has_box'] = fs['cell'] is not None
     if fs['fmt'] in ('xtc', 'trr'):
         for kk in ('min_chunk_size', 'chunk_size_multiplier'):
             if kk in fs['knobs']:
@@ -396,8 +433,14 @@ def step_handle(res, check, world, hc, op, stepno, judge=True):
                 newpos = N
                 over = False
             kw = {}
+            as_slice = False
             if ai is not None:
-                kw['atom_indices'] = ai
+                sub = world.subsets[op['ai']]
+                if sub.get('kind') == 'slice' and len(np.arange(f['spec']['n_atoms'])[sub['start']::sub['step']]):
+                    kw['atom_indices'] = slice(sub['start'], None, sub['step'])
+                    as_slice = True
+                else:
+                    kw['atom_indices'] = ai
             try:
                 out = hc.h.read(n, **kw) if n is not None else hc.h.read(**kw)
             except NotImplementedError:
@@ -405,6 +448,12 @@ def step_handle(res, check, world, hc, op, stepno, judge=True):
                 res.log.append('%d c%d %s not-offered' % (stepno, op['c'], kind))
                 return
             except Exception as e:
+                if as_slice and isinstance(e, (TypeError, ValueError, IndexError)) and pre < N:
+                    # this reader does not take a slice object for atom_indices (documented as array_like): not offered
+                    res.skip('%s.read(atom_indices=slice)' % fmt)
+                    res.log.append('%d c%d %s slice-ai not-offered' % (stepno, op['c'], kind))
+                    hc.close()
+                    return
                 if kind == 'read' and pre >= N:
                     # read(n) at end of file: signalling EOF by raising is accepted; position must stay
                     res.probe('read_at_eof_raised')
